@@ -371,5 +371,28 @@ def run_case(ctx, case):
                 diffs.append((k, model.snap_diff(before.get(k, {}), after.get(k, {}))))
         ctx.violation("repair-changed-document-or-data", "repair() changed document / data files",
                       {"diffs": diffs[:4], "damage": case["damage"]})
+    # the repairing session goes on and refreshes the persistent cache; a later session must still never be
+    # handed a state point that does not hash to the id it asked for
+    sig.exc_name(rp.update_cache)
+    names2 = sorted(n for n in os.listdir(ws) if model.is_id(n) and os.path.isdir(os.path.join(ws, n)))
+    for name in names2:
+        p3 = signac.Project(path)
+        ctx.monitor("open_by_id_never_foreign")
+        try:
+            job = p3.open_job(id=name)
+            spv = model.plain(job.statepoint())
+            csp = model.plain(dict(job.cached_statepoint))
+        except Exception:
+            continue
+        try:
+            ok = model.model_id(spv) == name and model.model_id(csp) == name
+        except Exception:
+            ok = False
+        if not ok:
+            ctx.violation("corrupted-statepoint-accepted-after-repair-and-update_cache",
+                          "after repair() and update_cache() in one session, a fresh session is handed a state point whose hash differs from the id",
+                          {"id": name, "statepoint": spv, "reason_before_repair": reason.get(name), "damage": case["damage"],
+                           "cache": case["cache"]})
+            return
     ctx.sample({"damage": case["damage"], "cache": case["cache"], "damaged": {n: reason[n] for n in sorted(damaged)},
                 "recoverable": {n: list(v) for n, v in recoverable.items()}})
